@@ -166,7 +166,7 @@ Section Scan.
     | Some t =>
       let pre := firstn (Z.to_nat so) ln in                   (* sbuf_mem(r, ln, offs[0]) *)
       let ln1 := skipn (Z.to_nat eo) ln in                    (* ln += offs[1] *)
-      if (eo <=? 0)%Z then                                    (* if (offs[1] <= 0): zero-length match at the suffix start *)
+      if (eo <=? so)%Z then                                   (* if (offs[1] <= offs[0]): zero-length match *)
         match step_char ln1 with
         | None => None
         | Some (c, ln2) => Some (pre ++ t ++ c, ln2)
@@ -209,7 +209,7 @@ End Scan.
 
 (* ------------------------------------------------------------------------------------------ *)
 (* the property's vocabulary: a segment is (gap before the match, matched text, its replacement,
-   the character stepped over after an empty match at the suffix start) *)
+   the character stepped over after an empty match) *)
 Definition seg := (bytes * bytes * bytes * bytes)%type.
 Definition seg_old (s : seg) : bytes := let '(g, m, _, c) := s in g ++ m ++ c.
 Definition seg_new (s : seg) : bytes := let '(g, _, r, c) := s in g ++ r ++ c.
@@ -229,8 +229,8 @@ Section Chain.
       expand rep ln offs = Some t /\
       s = (firstn (Z.to_nat so) ln, firstn (Z.to_nat (eo - so)) (skipn (Z.to_nat so) ln), t, c) /\
       skipn (Z.to_nat eo) ln = c ++ rest /\
-      (* one character is stepped over exactly when the match ends at the start of the suffix *)
-      (if (eo <=? 0)%Z then step_char (skipn (Z.to_nat eo) ln) = Some (c, rest) else c = []).
+      (* one character is stepped over exactly when the match is empty *)
+      (if (eo <=? so)%Z then step_char (skipn (Z.to_nat eo) ln) = Some (c, rest) else c = []).
 
   Inductive Chain : bool -> bytes -> list seg -> bytes -> Prop :=
   | ChEnd : forall nb ln, find ln nb = None -> Chain nb ln [] ln
